@@ -39,8 +39,17 @@ var (
 	HangSite uint32
 )
 
+// MainG identifies the goroutine that drives the run; IsForeign (set by the
+// child's main from sched.Getg) tells whether the caller is another goroutine,
+// i.e. one the code under test started by itself. Such goroutines are neither
+// counted nor budgeted.
+var IsForeign func() bool
+
 // Hook is installed as verifsim.Hook for single-task properties.
 func Hook(s uint32) {
+	if f := IsForeign; f != nil && f() {
+		return
+	}
 	Steps++
 	if int(s) < len(SiteHits) {
 		SiteHits[s] = true
@@ -57,7 +66,13 @@ func Hook(s uint32) {
 
 // Blocked is the BlockedHook outside a scheduled run: a single goroutine that
 // cannot take a lock will never get it.
-func Blocked() { panic("deadlock: the only running goroutine is blocked on a lock or a sync.Once") }
+func Blocked() {
+	if f := IsForeign; f != nil && f() {
+		runtime.Gosched()
+		return
+	}
+	panic("deadlock: the only running goroutine is blocked on a lock or a sync.Once")
+}
 
 // ---------------------------------------------------------------- black box
 
